@@ -77,7 +77,12 @@ def job(spec):
 
         def num(x):
             return float(getattr(x, "value", x))
+        from astropy.io import fits as _fits
+        with _fits.open(str(path)) as hd:
+            imjd, smjd, offs = int(hd[0].header["STT_IMJD"]), int(hd[0].header["STT_SMJD"]), float(hd[0].header["STT_OFFS"])
+        hdr["stt_offs_us"] = int(round(offs * 1e6))
         ev.append({"a": "header", "outcome": "ok", "plain": bool(plain), "nchans": int(h.nchans), "nsamples": int(h.nsamples),
+                   "tstart_off_us": int(round(((num(h.tstart) - imjd) * 86400.0 - smjd) * 1e6)),
                    "nbits": int(h.nbits), "fch1_milli": int(round(num(h.fch1) * 1000)), "foff_milli": int(round(num(h.foff) * 1000)),
                    "tsamp_micro": int(round(num(h.tsamp) * 1e6))})
         for s in range(0, N):
@@ -160,9 +165,9 @@ def run(v) -> None:
             if e["a"] == "block" and (e["start"] % t["cfg"]["nsblk"] or (e["start"] + e["n"]) % t["cfg"]["nsblk"]):
                 v.nontrivial.add((t["cfg"]["seed"], e["start"], e["n"]))
     keys = ("a", "outcome", "nsamples", "valsq", "start", "n", "shape", "op", "ch", "chans", "plain", "nchans", "nbits", "fch1_milli",
-            "foff_milli", "tsamp_micro")
+            "foff_milli", "tsamp_micro", "tstart_off_us")
     dflt = {"nsamples": 0, "valsq": [], "start": 0, "n": 1, "shape": [], "op": "", "ch": 0, "chans": [], "plain": True, "nchans": 0, "nbits": 0,
-            "fch1_milli": 0, "foff_milli": 0, "tsamp_micro": 0}
+            "fch1_milli": 0, "foff_milli": 0, "tsamp_micro": 0, "tstart_off_us": 0}
     traces = [{"hdr": t["hdr"], "ev": [{k: e.get(k, dflt.get(k)) for k in keys} for e in t["ev"]], "full": t} for t in ok]
     for tr, pos in tracecheck.validate("Trace_PFits", traces, verdict=v, label="PSRFITS reads", chunk=4, timeout=3000):
         t = tr["full"]
